@@ -104,6 +104,47 @@ def stop_reach(*a):
     return LAST[5] is None and LAST[4] and W.FAIL in LAST[0] and any(e == ('bad', 'a1') for e in LAST[6])
 
 
+CHILD_BAD = [W.FAIL, W.ERROR, W.XPASS, W.SUBFAIL2, W.SUB_ERR, W.TD_ERR]
+
+
+def stop_child(mode, kb, pos, rep2):
+    """-x inside a layer subprocess (-j2 / -j3 / resumed after a NotImplementedError tearDown): whole real runs with
+    loop-back children; after the first bad outcome no further test starts in that process."""
+    global LAST
+    from vt import fullrun as FR
+    mode = pick(['j2', 'nie', 'j3', 'seq'], mode)
+    kb = pick(CHILD_BAD, kb)
+    pos = ci(pos, 0, 2)
+    rep2 = cb(rep2)
+    with untraced():
+        kinds = {'a0': W.PASS, 'b0': W.PASS, 'b1': W.PASS, 'b2': W.PASS}
+        kinds['b%d' % pos] = kb
+        world = FR.World(kinds, td={'A': 2} if mode == 'nie' else {}, order=['a0', 'b0', 'b1', 'b2'])
+    res = FR.run(world, mode, argv=['-x'] + (['--repeat', '2'] if rep2 else []))
+    with untraced():
+        why = None
+        if res.escaped or res.thread_exc:
+            why = 'exception %r / %r' % (res.escaped, res.thread_exc)
+        started = [(e[0], e[2]) for e in res.trace if e[1] == 'setUp' and e[2].startswith('b')]
+        exp = ['b%d' % i for i in range(pos + 1)]
+        if why is None and [n for _p, n in started] != exp:
+            why = 'tests of the failing layer started: %r, expected %r (first bad outcome: %s at b%d, mode %s)' % (
+                [n for _p, n in started], exp, W.KIND_NAMES[kb], pos, mode)
+        if why is None and not res.failed:
+            why = 'verdict passed'
+        ups = [e[2] for e in res.trace if e[1] == 'su']
+        downs = [e[2] for e in res.trace if e[1] == 'td']
+        if why is None and sorted(ups) != sorted(downs):
+            why = 'layers set up %r but torn down %r' % (ups, downs)
+    LAST = (mode, W.KIND_NAMES[kb], pos, rep2, why, tuple(started))
+    return why is None
+
+
+def stop_child_reach(*a):
+    stop_child(*a)
+    return LAST[4] is None and len({p for p, _n in LAST[5]}) == 1 and LAST[5][0][0] != 0
+
+
 _P = [('pos', 'int'), ('kb', 'int'), ('kpre', 'int'), ('kpost', 'int'), ('su_fault', 'int'), ('rep2', 'bool'), ('topo', 'int'), ('x', 'bool')]
 _C = ', '.join(n for n, _ in _P)
 _B = '0 <= pos <= 5 and 0 <= kb < %d and 0 <= kpre < %d and 0 <= kpost < %d and 0 <= su_fault <= 3 and 0 <= topo <= 1' % (len(BADK), len(PREK), len(POSTK))
@@ -124,7 +165,7 @@ SPEC = {
     'stubs': ['options.output -> recorder (test_failure/test_error/layer_failure mark the first bad event)', 'runner.time, runner.gc',
               'unittest.TestResult._exc_info_to_string -> constant'],
     'assumptions': ['--shuffle only permutes tests inside a layer; it is covered here by the symbolic position of the first bad test'],
-    'outside': ['children of a -j run (each child is the same code with one layer)', 'more than 5 tests in 3 layers'],
+    'outside': ['more than 5 tests in 3 layers (stop) / 3 tests in the failing layer (stop_child)'],
     'harnesses': [
         {'name': 'stop', 'fn': 'stop', 'params': _P, 'call': _C,
          'bounds': {'quick': _B + ' and (su_fault == 3 or pos >= 4) and kpost == 1 and (kpre == 0 or not rep2)', 'thorough': _B},
@@ -134,5 +175,11 @@ SPEC = {
                                                  'thorough': _B + ' and su_fault == 3 and kpre == 0 and kpost == 0 and not rep2 and topo == 0'},
          'timeout': {'quick': 240, 'thorough': 850},
          'fidelity': [_v(), _v(pos=0, kb=3, rep2=True, topo=1), _v(pos=5, su_fault=1, topo=1), _v(pos=2, kb=2, x=False)]},
+        {'name': 'stop_child', 'fn': 'stop_child', 'params': [('mode', 'int'), ('kb', 'int'), ('pos', 'int'), ('rep2', 'bool')], 'call': 'mode, kb, pos, rep2',
+         'bounds': {'quick': '0 <= mode <= 3 and 0 <= kb < %d and 0 <= pos <= 2' % len(CHILD_BAD), 'thorough': '0 <= mode <= 3 and 0 <= kb < %d and 0 <= pos <= 2' % len(CHILD_BAD)},
+         'slices': {'quick': ['mode == %d' % m for m in range(4)], 'thorough': ['mode == %d and pos == %d' % (m, p) for m in range(4) for p in range(3)]},
+         'reach': 'stop_child_reach', 'reach_bounds': {'quick': 'mode == 0 and 0 <= kb < 2 and 0 <= pos <= 2', 'thorough': 'mode == 0 and 0 <= kb < 2 and 0 <= pos <= 2'},
+         'timeout': {'quick': 300, 'thorough': 600},
+         'fidelity': [dict(mode=0, kb=0, pos=0, rep2=True), dict(mode=1, kb=3, pos=1, rep2=False)]},
     ],
 }
